@@ -6,6 +6,7 @@ import (
 	"crypto/x509"
 	"fmt"
 	"math/big"
+	"math/rand"
 	"path/filepath"
 	"sync"
 	"sync/atomic"
@@ -183,7 +184,7 @@ func fmtReads(rs []read) string {
 
 func main() {
 	run := report.New("C14", "exploration")
-	run.Rule("scenarios (real time, small durations): S1 identity (two issuers, equal subject+serial), S2 default lifetime with read periods above and below the lifetime and a good->revoked flip, S3 nextUpdate past / near (requested lifespan read from the cache table), S4 zero duration => hits == calls, S5 failed queries (down, garbage, unauthenticated) are not cached, S6 two checker instances with different durations; oracle one-sided: a verdict served without a responder hit at an age above lifetime+margin, or for another issuer's certificate, is a violation; non-trivial = the scenario observed at least one read served from cache (or, for S4/S5, responder hits on every call); distinct = scenario instance")
+	run.Rule("scenarios (real time, small durations): S1 identity (two issuers, equal subject+serial), S2 default lifetime with read periods above and below the lifetime and a good->revoked flip, S3 nextUpdate past / near (requested lifespan read from the cache table), S4 zero duration => hits == calls, S5 failed queries (down, garbage, unauthenticated) are not cached, S6 two checker instances with different durations, S7 seeded provision/cleanup life cycles of 1 h-cache instances, after every step a fresh zero-duration instance must contact the responder for every certificate cached so far; oracle one-sided: a verdict served without a responder hit at an age above lifetime+margin, or for another issuer's certificate, is a violation; non-trivial = the scenario observed at least one read served from cache (or, for S4/S5, responder hits on every call); distinct = scenario instance")
 	run.Assume("all stamps from one monotonic clock in the harness process; a lateness probe voids a scenario when 5 ms timers fire more than margin/4 late", "margin = max(1 s, 3 x lifetime)")
 	scratch, _ := report.Scratch("C14")
 	sut.QuietStderr(filepath.Join(scratch, "stderr.log"))
@@ -474,6 +475,79 @@ func main() {
 	})
 	wg.Wait()
 	close(stop)
+	// S7 (sequential, after all other scenarios): instance life cycles. Instances with a 1 h cache are
+	// provisioned and cleaned up in seeded order, each caches 'good' for its own certificates; after
+	// every step a fresh instance with default_cache_duration 0 asks about every certificate cached so far
+	// (the responder now says revoked): it must contact the responder and report revoked.
+	{
+		lrng := rand.New(rand.NewSource(run.Seed ^ 0x57))
+		type inst struct {
+			c     *repoocsp.OCSPRevocationChecker
+			alive bool
+		}
+		var insts []*inst
+		type cached struct {
+			serial *big.Int
+			chain  []*x509.Certificate
+		}
+		var all []cached
+		bad := false
+		steps := []string{"provision", "provision", "cleanup-oldest"}
+		for i := 0; i < 9; i++ {
+			steps = append(steps, []string{"provision", "cleanup-oldest", "cleanup-newest", "provision"}[lrng.Intn(4)])
+		}
+		for si, step := range steps {
+			switch step {
+			case "provision":
+				in := &inst{c: newChecker(true, time.Hour), alive: true}
+				insts = append(insts, in)
+				serial := pki.NextSerial()
+				chain := w.Leaf(serial, nil, []string{w.OCSP.URL("/a")})
+				e.set("/a", serial, world.OCSPStatus{Status: ocsp.Good}, "")
+				_, _ = in.c.IsRevoked(chain[0], [][]*x509.Certificate{chain})
+				_, _ = in.c.IsRevoked(chain[0], [][]*x509.Certificate{chain})
+				e.set("/a", serial, world.OCSPStatus{Status: ocsp.Revoked}, "")
+				all = append(all, cached{serial, chain})
+			default:
+				var pick *inst
+				for _, in := range insts {
+					if in.alive {
+						pick = in
+						if step == "cleanup-oldest" {
+							break
+						}
+					}
+				}
+				if pick != nil {
+					_ = pick.c.Cleanup()
+					pick.alive = false
+				}
+			}
+			fresh := newChecker(true, 0)
+			for _, cd := range all {
+				h := e.hits("/a", cd.serial)
+				st, err := fresh.IsRevoked(cd.chain[0], [][]*x509.Certificate{cd.chain})
+				run.Eval(1)
+				if e.hits("/a", cd.serial) == h || err != nil || st == nil || !st.Revoked {
+					bad = true
+					run.Violation("S7.lifecycle.fresh-zero-duration-instance-served-from-another-instances-cache", fmt.Sprintf("after life-cycle steps %v a fresh instance with default_cache_duration 0 answered err=%v revoked=%v (responder contacted: %v) for a certificate another instance cached as good; the responder says revoked", steps[:si+1], err, st != nil && st.Revoked, e.hits("/a", cd.serial) != h), &report.Replay{Case: map[string]any{"steps": steps[:si+1]}})
+					break
+				}
+			}
+			_ = fresh.Cleanup()
+			if bad {
+				break
+			}
+		}
+		if !bad {
+			run.NonTrivial("S7 instance life cycles")
+		}
+		for _, in := range insts {
+			if in.alive {
+				_ = in.c.Cleanup()
+			}
+		}
+	}
 	run.Set("worst_timer_lateness_ms", float64(e.lateMax.Load())/1e6)
 	run.Finish(6)
 }
